@@ -48,6 +48,7 @@ PASS_MRO = {
     "three": ["ThreeRollPass", "SymmetricRollPass", "BaseRollPass", "DiskElementUnit", "DeformationUnit", "Unit"],
 }
 FG_SCENARIOS = [("wg", ("width", "gap")), ("fg", ("filling", "gap")), ("wh", ("width", "height")), ("fh", ("filling", "height"))]
+LEAN_LINE_CAP = 12000          # lines per run through the (interpreted) Lean model driver
 FG_BAD = [(), ("width",), ("gap",), ("width", "filling", "gap"), ("width", "gap", "height"), ("filling", "height", "gap", "width")]
 
 
@@ -305,7 +306,7 @@ def _random_groove(rng, which, ctx):
     """-> (desc, groove) ; desc is JSON-able and sufficient to rebuild the groove"""
     import warnings
     s = 10 ** rng.uniform(-3, 0)
-    if which == "two" and rng.random() < 0.1:
+    if which == "two" and rng.random() < 0.14:
         # arbitrary mirror-symmetric polyline with horizontal faces (z-monotone, y not monotone)
         n = rng.randrange(2, 9)
         w, d = s * rng.uniform(10, 80), s * rng.uniform(2, 40)
@@ -314,6 +315,10 @@ def _random_groove(rng, which, ctx):
         ys[0] = d if rng.random() < 0.7 else ys[0]
         half = [(x, y) for x, y in zip(xs, ys) if 0 < x < w / 2 * 0.999]
         pad = w * rng.uniform(0.05, 0.4)
+        if rng.random() < 0.4:
+            # undercut flank: the contour bulges beyond the face end and comes back (NOT z-monotone: outside the fragment
+            # of the vertex-list theorems; term-level theorem, python-side correspondence and oracle still apply)
+            half = half + [(w / 2 * rng.uniform(1.01, 1.0 + 1.6 * pad / w), d * rng.uniform(0.1, 0.5))]
         pts = [(-w / 2 - pad, 0.0), (-w / 2, 0.0)] + [(-x, y) for x, y in reversed(half)] + [(0.0, ys[0])] + half + \
               [(w / 2, 0.0), (w / 2 + pad, 0.0)]
         desc = {"cls": "SplineGroove", "points": [list(p) for p in pts]}
@@ -723,6 +728,12 @@ def _group(ctx, T, which, desc, groove, gap, kinds, lean):
     model = getattr(ctx, "model_available", True) and T is not None
     fn = T["resolved"].get((which, "cross_section")) if T else None
     prog = next((r for (i, r) in T["hooks"] if i["fn"] == fn), None) if T else None
+    if lean is not None and len(lean) > LEAN_LINE_CAP:
+        lean = None                      # enough for the (interpreted) model driver; the python-side comparisons go on
+        ctx.count("groups-after-lean-driver-cap")
+    if lean is not None and not monotone:
+        lean = None                      # the walking clip is exact for z-monotone contours only: outside the fragment
+        ctx.count("vertex-list-model:outside-fragment(not z-monotone)")
     if model and lean is not None:
         lean.append(("contour " + " ".join(f"{stub.bits(x)} {stub.bits(y)}" for x, y in gc), ("contour", len(gc)), None))
     seeded = False
@@ -936,7 +947,7 @@ def run(ctx):
         if found:
             stub.formula_correspondence(ctx, MODEL, {n: i for n, i in found.items()}, _sampler, n_each=ctx.budget(5, 60))
     lean = [] if (model and T is not None) else None
-    n_groups = ctx.budget(110, 2500)
+    n_groups = ctx.budget(110, 1500)
     try:
         for (which, cls, kw, gf, kind) in CORPUS:
             kw = dict(kw, pad_angle=PAD[which])
